@@ -499,6 +499,13 @@ class Impl:
             return net
         if op == "ucopy":
             return net.undirected_copy()
+        if op.startswith("split="):
+            node, num, e = op_args(op)
+            if (node, num, e) == (-1, 1, 1):
+                return net.splitted_copy()          # the documented defaults
+            if num == 1 and e == 1:
+                return net.splitted_copy(node)
+            return net.splitted_copy(node=node, proportion=num / 2.0 ** e)
         if op == "pcopy":
             return net.permuted_copy(list(range(net.N)))
         if op == "edgelist":
@@ -679,7 +686,7 @@ def expected(c):
         pairs |= set((j, i) for i, j in pairs)
     for op in c.ops:
         kind = op.split(":")[0].split("=")[0]
-        if kind in ("ucopy", "edgelist", "pcopy", "copy", "saveload", "regraph"):
+        if kind in ("ucopy", "edgelist", "pcopy", "copy", "saveload", "regraph", "split"):
             has_grid = False        # these return a plain Network
         if kind == "rethr":
             pairs = set(c.sp["edges2"])
@@ -693,6 +700,33 @@ def expected(c):
             V, V2, V3, gvw = None, None, None, None
         elif kind in ("edgelist", "pcopy"):
             V, V2, V3, gvw = None, None, None, None
+        elif kind == "split":
+            # splitted_copy(node, proportion): node N is new, linked to k and to k's neighbours;
+            # w[k] is divided (1-p) : p; every link attribute is carried over, transformed like
+            # the adjacency matrix (the link between the halves gets W[k, k] = 0)
+            node, num, ex = op_args(op)
+            k = node + N if node < 0 else node
+            if not 0 <= k < N:
+                return "IndexError"     # no such node: the call must not return a network
+            if not pairs and (c.ctor == "igraph" or any(W is not None for W in (V, V2, V3))):
+                # on an edgeless network set_link_attribute creates nothing, so whether the
+                # attribute exists on the copy (which has a link) is not determined by the
+                # specification: left to the exact correspondence with the model
+                return None
+            p = Fraction(num) / Fraction(2) ** ex
+            def split_matrix(W, n=N, k=k, prs=frozenset(pairs)):
+                M = [[W[i][j] if (i, j) in prs else Fraction(0) for j in range(n)] for i in range(n)]
+                X = [row + [row[k]] for row in M]
+                X.append(list(M[k]) + [M[k][k]])
+                X[k][n] = X[n][k] = M[k][k]
+                return X
+            V, V2, V3 = [None if W is None else split_matrix(W) for W in (V, V2, V3)]
+            pairs = set(pairs) | set((i, N) for i, j in pairs if j == k) \
+                | set((N, j) for i, j in pairs if i == k) | {(k, N), (N, k)}
+            w = list(w) + [p * w[k]]
+            w[k] = (1 - p) * w[k]
+            gvw = None
+            N += 1
         elif kind == "copy":
             gvw = None
         elif kind in ("saveload", "loadspatial", "loadgeo", "save"):
@@ -816,6 +850,15 @@ def judge(ctx, c, o, ans, exc):
     e = expected(c)
     if e is None:
         return
+    if e == "IndexError":
+        # splitted_copy with an index that names no node (node >= N or node < -N)
+        if not ans.startswith("raise:"):
+            ctx.fail({"cls": c.cls, "ctor": c.label(), "op": "split", "kind": "no_raise",
+                      "error": "IndexError"},
+                     f"{c.cls} {c.label()} ops={c.ops} N={c.N}: splitted_copy with an index that "
+                     f"names no node returned {ans[:80]!r} instead of raising IndexError",
+                     {"case": c.describe(), "observed": ans})
+        return
     op = c.ops[-1] if c.ops else "-"
     fmt = op.split(":")[1] if ":" in op else "-"
     size = "N<=1" if c.N <= 1 else "N>=2"
@@ -921,7 +964,21 @@ def orient(rng, edges, directed, how):
 FORMATS = ["graphml", "graphmlz", "pickle", "gml"]
 
 
-def history_ops(rng, first=None):
+def split_op(rng, N=None):
+    """`splitted_copy(node, proportion)`: indices from either end (a wrong one now and then when
+    the size is known), dyadic proportions incl. 0, 1 and the default"""
+    if N is None:
+        node = rng.choice([-1, -1, 0, 1, -2])
+    else:
+        node = rng.choice([-1, 0, N - 1, -N, rng.randrange(-N, N), rng.randrange(-N, N),
+                           rng.choice([N, -N - 1, 2 * N, -2 * N])
+                           if rng.random() < 0.15 else rng.randrange(-N, N)])
+    # (at most 3 significant bits: a weight keeps well under 40 after a few splits)
+    num, e = rng.choice([(1, 1), (1, 1), (1, 2), (3, 2), (1, 3), (5, 3), (0, 0), (1, 0)])
+    return "split=%d_%d_%d" % (node, num, e)
+
+
+def history_ops(rng, first=None, no_split=False):
     """a multi-step history on one live object (continuing with the loaded / copied object
     where a statement returns a new one); GML (known findings) is kept out of histories"""
     ops = [first] if first else []
@@ -949,8 +1006,11 @@ def history_ops(rng, first=None):
             ops.append("regraph")
         elif r < 0.97:
             ops.append("setadj=%d_%d_%d" % (rng.randrange(0, 5), rng.randrange(0, 5), rng.randrange(0, 5)))
-        else:
+        elif r < 0.98 or no_split:
             ops.append(rng.choice(["ucopy", "edgelist", "pcopy"]))
+        else:
+            ops.append(split_op(rng))
+            no_split = True         # one per history (each costs up to 3 bits of a weight)
     return ops
 
 
@@ -1043,6 +1103,17 @@ def cases_for(rng, N, directed, edges, quick, rich):
     add(form="list", ops=["edgelist"], **dense)
     add(form="ndarray", ops=["pcopy"], **dense)
     add(ctor="edges", form="upper", edges=list(edges), n_nodes=N, ops=["copy"])
+    # splitted_copy: on its own (every start), followed by the other paths, after attributes
+    # were assigned, and on graph objects whose edge ids are in their own order
+    if N >= 2:
+        add(form="list", ops=[split_op(rng, N)], **dense)
+        add(form=rng.choice(["list", "ndarray"]), **dense,
+            ops=[split_op(rng, N), rng.choice(["copy", "regraph", "ucopy", "edgelist", "pcopy",
+                                                "saveload:" + rng.choice(FORMATS[:3])])])
+        add(ctor="igraph", form="graph-shuffled", edges=own_order(),
+            ops=[split_op(rng, N)] + (history_ops(rng) if rng.random() < 0.5 else []))
+        add(ctor="coo", form=rng.choice(forms), shape=(N, N), entries=list(ents),
+            ops=attr_history() + [split_op(rng)] + ([split_op(rng)] if rng.random() < 0.3 else []))
     add(ctor="igraph", form="graph", edges=list(edges), ops=["copy"])
     for fmt in fmts:
         add(form="list", ops=["saveload:" + fmt], **dense)
@@ -1108,7 +1179,7 @@ def subclass_cases(rng, quick):
             # only while the object still is the subclass instance
             keep = 0
             while keep < len(ops) and ops[keep].split(":")[0].split("=")[0] not in (
-                    "copy", "ucopy", "edgelist", "pcopy", "regraph", "saveload"):
+                    "copy", "ucopy", "edgelist", "pcopy", "regraph", "saveload", "split"):
                 keep += 1
             ops.insert(rng.randrange(0, keep + 1), "rethr")
         return ops
@@ -1297,7 +1368,7 @@ def run(ctx):
                     gs = rng.sample(gs, 64 if quick else 400)
                 specs += [(N, d, g, N <= 2 or rng.random() < (0.15 if quick else 0.3)) for g in gs]
         kinds = ["empty", "single", "sparse", "half", "dense", "full", "isolated"]
-        for _ in range(110 if quick else 640):
+        for _ in range(110 if quick else 440):
             N = rng.randrange(2, 13 if quick else 31)
             d = rng.random() < 0.5
             specs.append((N, d, random_graph(rng, N, d, rng.choice(kinds)),
